@@ -53,6 +53,8 @@ type StepRes struct {
 	Diff   string `json:"diff,omitempty"`   // structural difference with the original
 	ReDiff string `json:"rediff,omitempty"` // re-encoding differs from the original bytes (or, for corrupted input, does not round-trip)
 	Alloc  uint64 `json:"alloc,omitempty"`  // bytes allocated during the decode (measured for corrupted input only)
+	// HugeScale: the decoded object carries a scale outside the range of the fixed-size text encoding of rlwe.Scale
+	HugeScale bool `json:"hugescale,omitempty"`
 }
 
 // DecodeRes is the outcome of a DecodeReq.
@@ -274,6 +276,7 @@ func runDecode(req DecodeReq) (res DecodeRes) {
 			if rd != nil {
 				res.OverRead = rd.off - len(encs[i])
 			}
+			st.HugeScale = hasUnencodableScale(recv)
 			_, pm := guarded(func() error {
 				if self, ok := libEqual(objs[i], objs[i]); !ok || !self {
 					// the library's Equal is unusable on this value (e.g. Element.Equal dereferences a nil MetaData)
@@ -366,6 +369,7 @@ func runRaw(req DecodeReq) (res DecodeRes) {
 	}
 	if st.Err == "" && st.Panic == "" {
 		st.Diff = "raw" // there is no original to compare with
+		st.HugeScale = hasUnencodableScale(recv)
 		_, pm := guarded(func() error {
 			re, err := recv.MarshalBinary()
 			if err != nil {
